@@ -8,6 +8,9 @@ import FpgoVerif.Props.C18
 #print axioms FpgoVerif.C18.C18_self_transport_recurses
 #print axioms FpgoVerif.C18.C18_book
 #print axioms FpgoVerif.C18.C18_book_frame
+#print axioms FpgoVerif.C18.C18_storage
 #print axioms FpgoVerif.C18.C18_setHTTPClient_inv
 #print axioms FpgoVerif.C18.C18_runH_inv
+#print axioms FpgoVerif.C18.C18_client_frame
+#print axioms FpgoVerif.C18.C18_inv_other_clients
 #print axioms FpgoVerif.C18.C18_client
